@@ -41,6 +41,16 @@ func (x *searcher) checkProtocol(s, n *State, o buildOpts, res *buildResult) {
 	if runDone != 1 {
 		bad("run-done-count", fmt.Sprintf("%d RunDone events", runDone))
 	}
+	// the requested target is always visited: it may stay silent only if a dependency failed
+	if len(perLabel[o.Target]) == 0 && o.Then == "" {
+		anyFailed := false
+		for _, e := range res.Events {
+			anyFailed = anyFailed || e.Kind == "Failed"
+		}
+		if !anyFailed {
+			bad("requested-target-silent", fmt.Sprintf("%s produced no event at all and no target reported a failure (Run returned %q)", o.Target, es(res.RunErr)))
+		}
+	}
 	for _, l := range order {
 		var kinds []string
 		for _, e := range perLabel[l] {
